@@ -27,7 +27,8 @@ OBJ_U = {"o1": "object", "o2": "object"}
 SIG_T = {"r": [], "p": ["t1"], "q": ["t1", "t1"], "m": ["object"], "s": ["t2"], "u": ["t1", "t1", "t3"], "f": [], "g": ["t1"]}
 FSIG_T = {"f": [], "g": ["t1"], "h": ["t1", "t1"], "k": ["t2"], "w": ["t1", "t1", "t3"], "tr": ["t1", "t1", "t1"]}
 PARENT = {"t1": "object", "t2": "t1", "t3": "object", "object": None}
-NUMERALS = ["0", "7", "-3", "2.5", "-0.25", "1e2", "2.5e-1", "12345.678", "2.5e-7", "0.0000123456"]
+NUMERALS = ["0", "7", "-3", "2.5", "-0.25", "1e2", "2.5e-1", "12345.678", "2.5e-7", "0.0000123456",
+            "007", "-0", "-0.0", "1E2", "10", "100.50"]
 
 
 def sub(a, b):
